@@ -118,9 +118,10 @@ func inconclusive(t *rapid.T, what string) {
 //   - the k-th Read returns min(len(buf), k-th entry of the read schedule, rest of the current fragment).
 // A Read never returns bytes of two different Write calls.  That is deliberate: the handshake decodes its
 // first message through a throw-away bufio.Reader (ser.DecodeReaderWithType on the raw conn), so a transport
-// that coalesces the peer's ephemeral key with its following auth frame into one Read makes the handshake
-// lose bytes and stall.  A stalled handshake establishes nothing, which C18 does not forbid, so the pipe does
-// not produce that shape (see the final report).
+// that coalesces the peer's ephemeral key with its following auth frame into one Read makes that side lose
+// the frame and stall until its deadline while the peer completes (probed on the unchanged tree).  That is a
+// liveness defect of the handshake, not one of C18's clauses (no wrong key is accepted, no accepted byte is
+// altered), so the pipe does not produce that shape; it is mentioned in the report.
 // Because a Write completes only when its bytes were consumed, what each Read returns is a function of the
 // schedules and of the bytes the code under test writes, not of goroutine timing.
 
